@@ -802,6 +802,28 @@ class Evaluator:
         memo[fi.qualname] = written - rebound
         return memo[fi.qualname]
 
+    def mutated_fields(self, ci, mname: str, depth: int = 0) -> set:
+        """attributes of `self` that method `mname` of repository class `ci` (re)assigns, directly or through other methods of the object"""
+        memo = self.__dict__.setdefault('_fields_memo', {})
+        key = (ci.qualname, mname)
+        if key in memo:
+            return memo[key]
+        memo[key] = set()
+        m = self.prog.find_method(ci, mname)
+        out = set()
+        if m is not None and m.params():
+            me = m.params()[0]
+            for n in ast.walk(m.node):
+                if isinstance(n, ast.Attribute) and isinstance(n.ctx, ast.Store) and isinstance(n.value, ast.Name) and n.value.id == me:
+                    out.add(n.attr)
+                if isinstance(n, ast.Subscript) and isinstance(n.ctx, ast.Store) and isinstance(n.value, ast.Attribute) and isinstance(n.value.value, ast.Name) \
+                        and n.value.value.id == me:
+                    out.add(n.value.attr)
+                if depth < 3 and isinstance(n, ast.Call) and isinstance(n.func, ast.Attribute) and isinstance(n.func.value, ast.Name) and n.func.value.id == me:
+                    out |= self.mutated_fields(ci, n.func.attr, depth + 1)
+        memo[key] = out
+        return out
+
     def _callee_arg_exprs(self, fi: FuncInfo, call: ast.Call, depth: int = 0):
         """(parameter, argument expression) for the parameters the resolved repository callee of `call` mutates in place"""
         try:
@@ -840,12 +862,18 @@ class Evaluator:
                     views[n.targets[0].id] = n.value.value
 
         def add_store(expr):
-            if ast.unparse(expr) not in {ast.unparse(x_) for x_ in stores}:
+            if ast.unparse(expr) not in {ast.unparse(x_) for x_ in stores if not isinstance(x_, tuple)}:
                 stores.append(expr)
         for s in stmts:
             for n in ast.walk(s):
                 if isinstance(n, ast.AugAssign) and isinstance(n.target, ast.Name) and n.target.id in views:
                     add_store(views[n.target.id])
+                if isinstance(n, ast.Call) and isinstance(n.func, ast.Attribute) and isinstance(n.func.value, (ast.Name, ast.Attribute)) \
+                        and n.func.attr not in MUTATING_METHODS:
+                    # a method call on an object: the fields that method assigns are loop state (decided when the receiver is known, in havoc)
+                    key_ = ('fields', ast.unparse(n.func.value), n.func.attr)
+                    if key_ not in {x_[:3] for x_ in stores if isinstance(x_, tuple)}:
+                        stores.append(('fields', ast.unparse(n.func.value), n.func.attr, n.func.value))
                 if isinstance(n, ast.Call) and cur_fi is not None:
                     # a call that writes into the array passed for one of its parameters
                     for p_, expr in self._callee_arg_exprs(cur_fi, n):
@@ -867,7 +895,7 @@ class Evaluator:
                         for x in ast.walk(t):
                             if isinstance(x, ast.Name) and isinstance(x.ctx, ast.Store):
                                 names.add(x.id)
-                        if isinstance(t, ast.Subscript) and ast.unparse(t.value) not in {ast.unparse(x_) for x_ in stores}:
+                        if isinstance(t, ast.Subscript) and ast.unparse(t.value) not in {ast.unparse(x_) for x_ in stores if not isinstance(x_, tuple)}:
                             stores.append(t.value)
                         if isinstance(n, ast.AugAssign) and isinstance(t, ast.Name):
                             names.add(t.id)
@@ -894,6 +922,19 @@ class Evaluator:
                 else:
                     st.env[nm] = t
         for expr in stores:
+            if isinstance(expr, tuple) and expr[0] == 'fields':
+                try:
+                    recv = self.eval(expr[3], st, quiet=True)
+                except Exception:
+                    continue
+                if isinstance(recv, Obj):
+                    for fname in sorted(self.mutated_fields(recv.cls, expr[2])):
+                        fv = st.heap.get(recv.oid, {}).get(fname)
+                        if fv is None:
+                            continue
+                        t = Term('loopstate', (fv, Const(phase)), uid=lid, kind=getattr(fv, 'kind', 'unknown'))
+                        st.heap[recv.oid][fname] = term_as_num(t, fv.length is not None, fv.kind) if isinstance(fv, Num) else t
+                continue
             try:
                 old = self.eval(expr, st, quiet=True)
             except Exception:
@@ -1030,6 +1071,8 @@ class Evaluator:
         st.heap = body.heap
         self.havoc(st, names | tnames, [], lid, 'out')
         for expr in stores:
+            if isinstance(expr, tuple):
+                continue                # object fields: the heap of the body is the heap after the loop
             v = self.eval(expr, body, quiet=True)
             if not isinstance(v, Obj):
                 self.rebind(expr, v, st)
@@ -1237,6 +1280,8 @@ class Evaluator:
         st.heap = body.heap
         self.havoc(st, names, [], lid, 'out')
         for expr in stores:
+            if isinstance(expr, tuple):
+                continue                # object fields: the heap of the body is the heap after the loop
             v = self.eval(expr, body, quiet=True)
             if not isinstance(v, Obj):
                 self.rebind(expr, v, st)
